@@ -19,6 +19,8 @@ What is proved, for every state satisfying the allocator invariant:
   (`C15_release`);
 * a mini-sector allocation with a really free entry on the mini free list reuses it: neither the mini
   stream nor the file grows (`C15_mini_reuse`);
+* as many allocations in a row as the free list is long do not grow the file (`C15_many_reuse`),
+  and every release makes the free list strictly longer (`C15_release_grows_free`);
 * the invariant holds in a fresh file (`C15_inv_create`).
 The statement about whole cycles ("from the second repetition on") is decided per history by the
 correspondence check (cycle oracle on the implementation + byte-exact model); it is *not* a theorem
@@ -57,6 +59,19 @@ theorem C15_cycle_partial {p p1 p2 : P} {start id : Nat} {k : Init} (inv : FatIn
   have hne : p1.free ≠ [] := List.ne_nil_of_mem (r.2.2.2 hs)
   have := C15_sector_reuse r.1 hne halloc
   rw [this.1, r.2.1]
+
+/-- as many allocations in a row as there are free sectors leave the file at its length, each
+served by a sector that was free -/
+theorem C15_many_reuse (kinds : List Init) {p p' : P} {ids : List Nat} (inv : FatInv p)
+    (hlen : kinds.length ≤ p.free.length) (h : allocMany p kinds = .ok (p', ids)) :
+    p'.numSectors = p.numSectors ∧ FatInv p' ∧ p'.free.length + kinds.length = p.free.length :=
+  let r := allocMany_no_growth kinds inv hlen h
+  ⟨r.1, r.2.1, r.2.2.1⟩
+
+/-- every release makes the free list strictly longer -/
+theorem C15_release_grows_free {p p' : P} {start : Nat} (inv : FatInv p) (hs : start ≠ END)
+    (h : freeChainFrom p start = .ok p') : p.free.length < p'.free.length :=
+  freeChain_free_grows inv hs h
 
 /-- non-vacuity: a concrete state with a free sector satisfies the hypotheses -/
 def exampleState : P :=
